@@ -1,6 +1,7 @@
 package checks
 
 import (
+	"fmt"
 	"math"
 
 	"github.com/sahandsafizadeh/qeep/tensor"
@@ -45,11 +46,27 @@ func absForward(p prog.Program) ref.T {
 	return r
 }
 
-// libForward builds the leaves (tracked as flagged) and applies the node.
+// libForward builds the leaves (tracked as flagged) and applies the node; if the program asks
+// for it, the same operation then runs once more on other data before anything is read.
 func libForward(p prog.Program) ([]tensor.Tensor, tensor.Tensor, error) {
 	vals, err := prog.RunLib(p)
 	if err != nil {
 		return nil, nil, err
+	}
+	if p.Disturb {
+		prog.Disturbance(p, false)
+		for i, l := range p.Leaves {
+			// the operands are still what they were
+			s, v, err := lib.Read(vals[i])
+			if err != nil || !ref.EqShape(s, l.Shape) {
+				return nil, nil, fmt.Errorf("operand %d changed its shape to %v after a later, unrelated call (%v)", i, s, err)
+			}
+			for k := range v {
+				if !lib.SameBits(v[k], l.Vals[k]) {
+					return nil, nil, fmt.Errorf("operand %d element %d changed from %v to %v after a later, unrelated call", i, k, l.Vals[k], v[k])
+				}
+			}
+		}
 	}
 	return vals[:len(p.Leaves)], vals[len(vals)-1], nil
 }
